@@ -107,7 +107,8 @@ def do_yield(ip, y, st):
         raise U("yield in a function whose contract is not generator=True")
     results = ip.ev(y.value, st) if y.value is not None else [(st, NONE)]
     for s2, v in results:
-        env = ip.spec_env(s2)
+        env = dict(ip.spec_env(s2))
+        env["yielded"] = v          # the value handed to the consumer at this yield
         for k, cl in enumerate(ip.c.at_yield):
             from .calls import eval_spec
             ip.emit("lazy", "at-yield#%d" % k, s2, eval_spec(ip, s2, env, cl, old=ip.entry))
@@ -432,9 +433,9 @@ def st_If(ip, s, st):
     outs = []
     for s2, v in ip.ev(s.test, st):
         c = ip.truth(s2, v)
-        if c.s == "true":
+        if c.s == "true" or ip.known(s2, c):
             outs += exec_block(ip, s.body, s2)
-        elif c.s == "false":
+        elif c.s == "false" or ip.known(s2, NOT(c)):
             outs += exec_block(ip, s.orelse, s2)
         else:
             outs += exec_block(ip, s.body, s2.fork(c, "T."))
@@ -488,7 +489,8 @@ def iter_next(ip, st, it, default=None):
 
 # --------------------------------------------------------------------------- loops
 def loop_ordinal(ip, node):
-    return ip.loop_ids[id(node)]
+    # loops of helpers executed in place (inline contracts) have no ordinal of their own: they must unroll
+    return ip.loop_ids.get(id(node), "inlined@%d" % node.lineno)
 
 
 def mutated_roots(ip, body_nodes):
